@@ -488,6 +488,10 @@ def run(prog: Program, res: Result, tier: str) -> None:
     from ..lints import check_no_bare_squeeze
     check_no_bare_squeeze(prog, res, "R2", ["sigpyproc.params"], "with one channel (or one sub-band) the delays become a 0-d array that "
                           "cannot be indexed per channel")
+    # ---- R3 (cont.) no negative delay reaches an index-form kernel (F38) ------------------------------------------------
+    from ..lints import check_delay_sign
+    if check_delay_sign(prog, res, "R3") < 3:
+        raise AnalysisError("fewer than 3 index-form kernel call sites (dedisperse, subband, fold) found in base.py")
     # ---- R7 the plan the streamed dedispersion consumes (shared with C01) -------------------------------------------
     depends(res, "R7", prog, tier, "C01", why="the blocks these loops consume come from read_plan: the plan rules of C01 (and, through them, the multi-file stream rules of C02) are re-evaluated here")
     res.floor("R7", 40)
@@ -585,6 +589,8 @@ BL = "sigpyproc/block.py"
 K = "sigpyproc/core/kernels.py"
 P = "sigpyproc/params.py"
 MUTANTS = [
+    {"id": "c09-revert-F38-dedisperse", "file": "sigpyproc/base.py", "expect": "C09.R3",
+     "old": "        chan_delays = self.header.get_dmdelays(dm)\n        # Channels that lead the reference (ascending band, negative DM) have\n        # negative delays: count them from the earliest channel instead\n        min_delay = min(0, int(chan_delays.min()))\n        chan_delays = chan_delays - min_delay\n        max_delay = int(chan_delays.max())\n        gulp = max(2 * max_delay, gulp)\n        nsamps_range = ", "new": "        chan_delays = self.header.get_dmdelays(dm)\n        min_delay = 0\n        max_delay = int(chan_delays.max())\n        gulp = max(2 * max_delay, gulp)\n        nsamps_range = "},
     {"id": "c09-revert-F34", "file": "sigpyproc/params.py", "expect": "C09.R2",
      "old": "    # Only the DM axis of a scalar DM is dropped: one channel stays a 1D array\n    return delays[0] if scalar_dm else delays\n", "new": "    return delays.squeeze()\n"},
     {"id": "c09-delays-first-row-always", "file": "sigpyproc/params.py", "expect": "C09.R2",
@@ -613,8 +619,8 @@ MUTANTS = [
      "old": "            res[irow, shift:] = arr[irow, : ncols - shift]\n            res[irow, :shift] = arr[irow, ncols - shift :]",
      "new": "            res[irow, : ncols - shift] = arr[irow, shift:]\n            res[irow, ncols - shift :] = arr[irow, :shift]"},
     {"id": "c09-own-delay-formula", "file": "sigpyproc/base.py", "expect": "C09.R1",
-     "old": "        chan_delays = self.header.get_dmdelays(dm)\n        max_delay = int(chan_delays.max())\n        gulp = max(2 * max_delay, gulp)\n        nsamps_range",
-     "new": "        chan_delays = (4.15e3 * dm * (self.header.chan_freqs**-2 - self.header.fch1**-2) / self.header.tsamp).astype(\"int32\")\n        max_delay = int(chan_delays.max())\n        gulp = max(2 * max_delay, gulp)\n        nsamps_range"},
+     "old": "        chan_delays = self.header.get_dmdelays(dm)\n        # Channels that lead the reference (ascending band, negative DM) have\n        # negative delays: count them from the earliest channel instead\n        min_delay = min(0, int(chan_delays.min()))\n        chan_delays = chan_delays - min_delay\n        max_delay = int(chan_delays.max())\n        gulp = max(2 * max_delay, gulp)\n        nsamps_range",
+     "new": "        chan_delays = (4.15e3 * dm * (self.header.chan_freqs**-2 - self.header.fch1**-2) / self.header.tsamp).astype(\"int32\")\n        min_delay = min(0, int(chan_delays.min()))\n        chan_delays = chan_delays - min_delay\n        max_delay = int(chan_delays.max())\n        gulp = max(2 * max_delay, gulp)\n        nsamps_range"},
     {"id": "c09-getdm-wrong-tsamp", "file": "sigpyproc/header.py", "expect": "C09.R1",
      "old": "            self.chan_freqs,\n            dm,\n            self.tsamp,\n            fch_ref,\n            in_samples=in_samples,\n        )\n\n    def get_dmsmearing(",
      "new": "            self.chan_freqs,\n            dm,\n            self.tobs,\n            fch_ref,\n            in_samples=in_samples,\n        )\n\n    def get_dmsmearing("},
